@@ -180,7 +180,21 @@ class Built:
         self.claims = []        # expected claims (expansions) in declaration order
 
 
-def build_module(desc):
+def apply_late(root, desc):
+    """The description's late changes (used by C18): a module imported after everything else was set up, notations registered
+    on the root.  Kept separate so that a caller can serialise in between (history) or not (fresh build)."""
+    from proof_generation.proof import ProofExp
+
+    by_label = notations.registry()[1]
+    for l in desc.get('extra_notations', []):
+        root.add_notation(by_label[l])
+    li = desc.get('late_import')
+    if li:
+        sub = ProofExp(axioms=[gens.build_repo(gens.sugared_from_json(a, by_label)) for a in li['axioms']])
+        root.import_module(sub)
+
+
+def build_module(desc, late=True):
     """-> (ProofExp, Built)"""
     from proof_generation.proof import ProofExp
     from proof_generation.proofs.propositional import Propositional
@@ -327,6 +341,8 @@ def build_module(desc):
 
     built.gamma_order = order(root, [])
     built.claims = [R.from_repo(c) for c in claims]
+    if late:
+        apply_late(root, desc)
     return root, built
 
 
